@@ -40,7 +40,19 @@ LEVEL_NOTE = 'Trusted: bvf/refmodel.py match/select/encode; generator exclusions
 def _cases(draw, tier):
     cfg = draw(isagen.full_isa(max_mnemonics=2, max_variants=4, address_sizes=(12, 16, 24), with_zones=False,
                                spec_bias=True))
-    # more overlap: restrict every variant to the first two sets
+    forced = None
+    if draw(st.integers(0, 7)) == 0:
+        # a mnemonic whose first variant reads enumeration keys only and whose second reads any expression
+        keys = draw(st.lists(st.sampled_from([k for k in isagen.ENUM_KEYS if k.isidentifier()]), min_size=1, max_size=3, unique=True))
+        n = draw(isagen.bits(1, 8))
+        cfg['operand_sets']['kset'] = {'operand_values': {'key': {
+            'type': 'enumeration', 'argument': {'size': n, 'byte_align': draw(st.booleans()),
+                                                'value_dict': {k: draw(isagen.unsigned_value(n)) for k in keys}}}}}
+        cfg['operand_sets']['nset'] = {'operand_values': {'num': {'type': 'numeric', 'argument': {'size': 8, 'byte_align': True}}}}
+        cfg['instructions']['tsk'] = {'variants': [
+            {'bytecode': {'value': 1, 'size': 4}, 'operands': {'count': 1, 'operand_sets': {'list': ['kset']}}},
+            {'bytecode': {'value': 2, 'size': 4}, 'operands': {'count': 1, 'operand_sets': {'list': ['nset']}}}]}
+        forced = 'tsk'
     isa = R.Isa(cfg)
     keys_in_use = set()
     for s in cfg['operand_sets'].values():
@@ -55,9 +67,9 @@ def _cases(draw, tier):
         for a in s_['operand_values'].values():
             if a['type'] == 'register' and a.get('decorator'):
                 decorated.add((a['register'], a['decorator']['type'], bool(a['decorator'].get('is_prefix', False))))
-    mn = draw(st.sampled_from(sorted(isa.instructions)))
+    mn = forced or draw(st.sampled_from(sorted(isa.instructions)))
     variants = isa.variants(mn)
-    vi = draw(st.integers(0, len(variants) - 1))
+    vi = 0 if forced else draw(st.integers(0, len(variants) - 1))
     v = variants[vi]
     oc = v.get('operands')
     alts = []
